@@ -36,6 +36,37 @@ func implRecords(set entities.Set) [][]string {
 	return out
 }
 
+var probeIE = entities.NewInfoElement("verifProbe", 990, entities.Unsigned64, 55555, 8)
+
+// independent: the records of a delivered set are separate objects. A consumer that appends fields to one
+// of them - the flow aggregation process does exactly that with the records the collector hands it - must
+// not change any other record of the set.
+func independent(set entities.Set, before [][]string) *xplore.Violation {
+	recs := set.GetRecords()
+	if len(recs) < 2 {
+		return nil
+	}
+	for i, r := range recs {
+		for k := 0; k < 3; k++ {
+			if err := r.AddInfoElement(entities.NewUnsigned64InfoElement(probeIE, 0xEEEEEEEE00000000+uint64(i)<<8+uint64(k))); err != nil {
+				return nil // appending is not possible on this record kind: nothing to probe
+			}
+		}
+	}
+	for i, r := range recs {
+		els := r.GetOrderedElementList()
+		if len(els) != len(before[i])+3 {
+			return xplore.V("records-aliased", "after appending 3 fields to every record of the delivered set, record %d has %d fields instead of %d", i, len(els), len(before[i])+3)
+		}
+		for j := range before[i] {
+			if got := common.ImplValue(els[j]); got != before[i][j] {
+				return xplore.V("records-aliased", "appending fields to the records of a delivered set changed record %d field %d from %s to %s (records share storage)", i, j, before[i][j], got)
+			}
+		}
+	}
+	return nil
+}
+
 func eqRecs(a, b [][]string) bool {
 	if len(a) != len(b) {
 		return false
@@ -131,7 +162,7 @@ func Judge(mode colmodel.Mode, exp colmodel.Expect, msg *entities.Message, err e
 						j++
 					}
 				}
-				return nil
+				return independent(set, got)
 			}
 		}
 		return xplore.V("data-values", "delivered records %s; template in force defines %s", short(fmt.Sprint(got)), short(fmt.Sprint(exp.Records)))
